@@ -67,6 +67,8 @@ class OptInterp:
                 return "N"
             if op.const.get("ty") == "bool" and "val" in op.const:
                 return "T" if op.const["val"] == "1" else "F"
+            if "::" in s and "val" not in op.const and "fn" not in op.const and "promoted" not in s:
+                return ("V", s.split("::")[-1])       # a named constant, e.g. Distance::ZERO
         return "?"
 
     def srcs(self, env, op):
@@ -293,6 +295,8 @@ class OptInterp:
                     ak = ins.rv.get("ak")
                     if ak == "adt" and ins.rv.get("adt") == OPT:
                         self.assign(env, ins.place, "S" if ins.rv.get("v") == "Some" else "N")
+                    elif ak == "adt" and not ins.ops and ins.rv.get("v"):
+                        self.assign(env, ins.place, ("V", ins.rv.get("v")))      # a unit variant, e.g. Distance::Infinity
                     elif ak in ("tuple", "closure"):
                         base = pkey(ins.place)
                         self.assign(env, ins.place, "?")
